@@ -283,7 +283,14 @@ pub fn random_state_case<T: Sc>(rng: &mut Rng, thorough: bool, idx: usize) -> St
         }
         _ => {}
     }
-    let recipe = random_recipe(rng, &o);
+    let mut recipe = random_recipe(rng, &o);
+    // one case in sixteen: no more samples than basis functions (N <= M: a legal, under-determined
+    // linear sub-problem; the thin decomposition then has N, not M, singular values)
+    let short = idx % 16 == 3 && recipe.m() >= 2;
+    if short {
+        let k = 1 + (idx / 16) % recipe.m();
+        recipe.x.truncate(k);
+    }
     let flavour = if big == 1 {
         *rng.pick(&[Flavour::Mrhs, Flavour::Mrhs, Flavour::MrhsPar])
     } else if big == 2 && recipe.n() > 1024 {
@@ -342,7 +349,7 @@ pub fn random_state_case<T: Sc>(rng: &mut Rng, thorough: bool, idx: usize) -> St
         eps,
         init,
         history,
-        origin: ["random", "bigS", "bigN", "bigMP", "bigM"][big],
+        origin: if short { "short" } else { ["random", "bigS", "bigN", "bigMP", "bigM"][big] },
     }
 }
 
